@@ -102,7 +102,7 @@ def case_table(run, f):
                     h = S.pat_head(S.pat_alts(arm["pat"])[0])
                     if h[0] == "variant" and h[1][-1] == "PPrim":
                         txt = S.norm_ws(run.facts.text(f.file, arm["body"]["sp"]))
-                        table["literal"] = {"txt": txt}
+                        table["literal"] = {"txt": txt, "raw": run.facts.text(f.file, arm["body"]["sp"])}
                     elif h[0] == "variant" and h[1][-1] == "PWild":
                         table["wildcard"] = sinks(arm["body"], "wildcard")
                 break
@@ -131,6 +131,10 @@ def r06_2(run, model):
                witness="match (c, f) { (1,_)=>10, (_,true)=>20, (2,_)=>30, _=>40 } on (2,true) yields 30 instead of 20")
         pushed = ".push(row)" in lit
         run.ob("R06.2", f"{name}|literal row goes to its bucket", pushed, site(CM, f.node["sp"]), f"literal case pushes the row: {pushed}")
+        straight = not re.search(r"\b(if|continue|return|break|match)\b", re.sub(r'"[^"]*"', '""', t["literal"].get("raw", lit)))
+        run.ob("R06.2", f"{name}|literal row is pushed unconditionally", straight, site(CM, f.node["sp"]),
+               "the literal arm is straight-line code" if straight else "the literal arm contains a condition or an early exit before the push",
+               witness="match (b, s) { (true,\"a\") => 1, (false,\"a\") => 2, _ => 3 }: the second row with the same literal is skipped as 'unreachable'; (false,\"a\") yields 3")
         for case in ("wildcard", "absent"):
             got = t.get(case, {})
             for sink in ("each value_rows bucket", "fallback_rows", "default_rows"):
@@ -306,7 +310,7 @@ def r06_8(run, model):
         for loop in S.find(f.body, "For"):
             for st in loop["body"]["stmts"]:
                 e = st.get("expr") if st["k"] == "ExprStmt" else None
-                if not (e and e["k"] == "If" and e["cond"]["k"] == "Let" and any(True for _ in S.calls(e["cond"], "remove_column"))):
+                if not (e and e["k"] == "If" and any(True for _ in S.calls(e["cond"], "remove_column"))):
                     continue
                 els = e.get("else")
                 n += 1
